@@ -46,6 +46,11 @@ enum Op {
     /// description holds. Refusing it (error or panic) is fine; it must change nothing, and every
     /// later request must be served as if this one had never been made
     Overlong { pack: usize, len: usize },
+    /// environment: from here on requests are made the way an administrator makes them - through
+    /// the repository's own command-line tool (`jbk locate <file> <uuid> <location>`, a separate
+    /// process per request, its answer read from its output) - or, `cli: false`, by library calls
+    /// again. The same manifest is rewritten whichever way the request arrives
+    Route { cli: bool },
 }
 
 fn containers(seed: u64, tier: Tier) -> Vec<(String, Logical)> {
@@ -358,6 +363,47 @@ struct Image {
 static REFUSED: std::sync::atomic::AtomicU64 = std::sync::atomic::AtomicU64::new(0);
 static NAMED_OTHERWISE: std::sync::atomic::AtomicU64 = std::sync::atomic::AtomicU64::new(0);
 static OVERLONG: std::sync::atomic::AtomicU64 = std::sync::atomic::AtomicU64::new(0);
+static CLI_REQUESTS: std::sync::atomic::AtomicU64 = std::sync::atomic::AtomicU64::new(0);
+
+/// One rewrite request through `jbk locate <file> <uuid> <location>`; the tool's answer is turned
+/// into what `tools::set_location` would have returned: (pack kind, old location), "not listed",
+/// or an error (anything else the tool said, or a death by signal).
+fn set_location_by_cli(file: &Path, uuid: uuid::Uuid, loc: &str) -> Result<Option<(String, String)>, String> {
+    let cli = simcore::jbk_cli();
+    let u = uuid.to_string();
+    let (out, err, how) = simcore::run_jbk_cli(&cli, &["locate".as_ref(), file.as_os_str(), u.as_ref(), loc.as_ref()]);
+    CLI_REQUESTS.fetch_add(1, std::sync::atomic::Ordering::Relaxed);
+    if how != "exit:0" {
+        return Err(format!("jbk locate ended with {how}: {}", err.lines().next().unwrap_or("")));
+    }
+    if err.contains("is not in the manifest") && out.trim().is_empty() {
+        return Ok(None);
+    }
+    let tail = format!("` to `{loc}`\n");
+    if let (Some(rest), true) = (out.strip_prefix("Change "), out.ends_with(&tail)) {
+        let rest = &rest[..rest.len() - tail.len()];
+        let marker = format!(" pack {u} location from `");
+        if let Some(at) = rest.find(&marker) {
+            return Ok(Some((rest[..at].to_string(), rest[at + marker.len()..].to_string())));
+        }
+    }
+    Err(format!("jbk locate said: {}", err.lines().next().or(out.lines().next()).unwrap_or("nothing")))
+}
+
+/// `jbk locate <file> <uuid>`: the location the tool shows for that pack (None when its output
+/// has no such line).
+fn location_shown_by_cli(file: &Path, uuid: uuid::Uuid, expected: &str) -> Result<bool, String> {
+    let cli = simcore::jbk_cli();
+    let u = uuid.to_string();
+    let (out, err, how) = simcore::run_jbk_cli(&cli, &["locate".as_ref(), file.as_os_str(), u.as_ref()]);
+    if how != "exit:0" {
+        return Err(format!("ended with {how}"));
+    }
+    if !out.contains("declared location `") {
+        return Err(format!("printed no location: {}", err.lines().next().unwrap_or("nothing on standard error either")));
+    }
+    Ok(out.contains(&format!("pack {u} has declared location `{expected}`\n")) || out.contains(&format!("pack {u} (with declared location `{expected}`) is located in ")))
+}
 
 /// Run `f` while the process may not grow or write any file beyond `limit` bytes (soft
 /// RLIMIT_FSIZE; SIGXFSZ is ignored process-wide by the worker, so the write fails with EFBIG).
@@ -500,7 +546,12 @@ fn run_history(dir: &Path, img: &Image, ops: &[Op]) -> (Vec<String>, usize) {
     let mut lock_holder: Option<std::fs::File> = None;
     // the name under which the caller designates the file (Op::NamedThrough)
     let mut call_path: std::path::PathBuf = entry.clone();
+    let mut via_cli = false;
     for (si, op) in flat.iter().enumerate() {
+        if let Op::Route { cli } = op {
+            via_cli = *cli;
+            continue;
+        }
         if let Op::NamedThrough { how } = op {
             let entry_name = &img.files[0].0;
             call_path = match how {
@@ -595,7 +646,7 @@ fn run_history(dir: &Path, img: &Image, ops: &[Op]) -> (Vec<String>, usize) {
                 Rng::derive(*uuid_seed, "c12-unknown-uuid", 0).fill(&mut b);
                 (uuid::Uuid::from_bytes(b), resolve(loc), None)
             }
-            Op::RestoreAll | Op::FileSizeLimit { .. } | Op::AdvisoryLock { .. } | Op::NamedThrough { .. } | Op::Overlong { .. } => unreachable!(),
+            Op::RestoreAll | Op::FileSizeLimit { .. } | Op::AdvisoryLock { .. } | Op::NamedThrough { .. } | Op::Overlong { .. } | Op::Route { .. } => unreachable!(),
             Op::SetEquivalent { pack, how } => {
                 let cur = model[*pack].location.clone();
                 let new = match how {
@@ -615,20 +666,29 @@ fn run_history(dir: &Path, img: &Image, ops: &[Op]) -> (Vec<String>, usize) {
                 (model[*pack].uuid, new, Some(*pack))
             }
         };
-        let res = with_file_size_limit(limit, || jubako::tools::set_location(&call_path, uuid, loc.as_str().into()));
+        // (a location that begins with '-' would be read as an option by the tool's argument
+        // parser, and the file-size limit is a fault of this process: both go by library call)
+        let by_cli = via_cli && limit.is_none() && !loc.starts_with('-') && call_path.to_str().is_some();
+        let res: Result<Option<(String, String)>, String> = if by_cli {
+            set_location_by_cli(&call_path, uuid, &loc)
+        } else {
+            with_file_size_limit(limit, || jubako::tools::set_location(&call_path, uuid, loc.as_str().into()))
+                .map(|o| o.map(|(kind, old)| (format!("{kind:?}"), old.as_str().to_string())))
+                .map_err(|e| dump::err_class(&e))
+        };
         if limit.is_some() && res.is_err() {
             REFUSED.fetch_add(1, std::sync::atomic::Ordering::Relaxed);
             // the write was refused by the environment and the library said so: nothing is
             // claimed about a rewrite that reported failure; the history ends here
             return (bad, steps);
         }
-        let step = format!("step {si} ({}{})", if limit.is_some() { "file size limited, " } else { "" }, match target {
+        let step = format!("step {si} ({}{}{})", if by_cli { "asked through the command-line tool, " } else { "" }, if limit.is_some() { "file size limited, " } else { "" }, match target {
             Some(p) => format!("set slot {p} to {} bytes", loc.len()),
             None => "unknown uuid".to_string(),
         });
         match (&res, target) {
             (Err(e), _) => {
-                bad.push(format!("{step}: set_location returned Err({})", dump::err_class(e)));
+                bad.push(format!("{step}: set_location returned Err({e})"));
                 return (bad, steps);
             }
             (Ok(None), Some(_)) => bad.push(format!("{step}: set_location says the pack is not in the manifest")),
@@ -642,10 +702,20 @@ fn run_history(dir: &Path, img: &Image, ops: &[Op]) -> (Vec<String>, usize) {
                         model[p].location
                     ));
                 }
-                if format!("{kind:?}") != model[p].kind {
-                    bad.push(format!("{step}: returned kind {kind:?}, model has {}", model[p].kind));
+                if *kind != model[p].kind {
+                    bad.push(format!("{step}: returned kind {kind}, model has {}", model[p].kind));
                 }
                 model[p].location = loc.clone();
+                if by_cli && p > 0 {
+                    // and the tool, asked for that pack, shows the new location (content packs
+                    // only: the tool's listing walks the content packs and never shows the
+                    // directory pack's description - a limit of the listing, not of the manifest)
+                    match location_shown_by_cli(&call_path, uuid, &loc) {
+                        Ok(true) => {}
+                        Ok(false) => bad.push(format!("{step}: `jbk locate` shows another location than the one just stored")),
+                        Err(e) => bad.push(format!("{step}: `jbk locate` asked for the pack {e}")),
+                    }
+                }
             }
         }
         // re-open and observe
@@ -809,6 +879,7 @@ fn ops_json(ops: &[Op]) -> Value {
             Op::AdvisoryLock { exclusive } => json!({"advisory-lock": exclusive}),
             Op::NamedThrough { how } => json!({"named-through": how}),
             Op::Overlong { pack, len } => json!({"overlong": pack, "len": len}),
+            Op::Route { cli } => json!({"route-cli": cli}),
         })
         .collect::<Vec<_>>())
 }
@@ -820,6 +891,8 @@ fn ops_from_json(v: &Value) -> Vec<Op> {
         .map(|o| {
             if o == "restore-all" {
                 Op::RestoreAll
+            } else if let Some(x) = o.get("route-cli") {
+                Op::Route { cli: x.as_bool().unwrap_or(false) }
             } else if let Some(x) = o.get("advisory-lock") {
                 Op::AdvisoryLock { exclusive: x.as_bool() }
             } else if let Some(x) = o.get("named-through") {
@@ -960,7 +1033,20 @@ pub fn worker_main(args: &Args, w: usize, n: usize) -> ! {
             // every other history runs with seeded short reads on jubako's reader-side streams
             hooks.set_short_reads(if h % 2 == 1 { 300 } else { 0 }, h);
             let mut rng = Rng::derive(args.seed, &format!("c12-history-{name}"), h);
-            let ops = gen_history(&mut rng, n_listed, args.tier, &boundary, img.files[0].1.len() as u64);
+            let mut ops = gen_history(&mut rng, n_listed, args.tier, &boundary, img.files[0].1.len() as u64);
+            // one history in four is carried out, from some point on (and possibly only up to a
+            // later point), through the command-line tool (own sub-stream: the histories themselves
+            // are the ones drawn before this route existed)
+            let mut route_rng = Rng::derive(args.seed, &format!("c12-route-{name}"), h);
+            if n_listed <= 200 && route_rng.chance(1, 4) {
+                let at = route_rng.usize_below(ops.len() + 1);
+                ops.insert(at, Op::Route { cli: true });
+                if route_rng.chance(1, 3) {
+                    let back = at + 1 + route_rng.usize_below(ops.len() - at);
+                    ops.insert(back, Op::Route { cli: false });
+                }
+            }
+            CLI_REQUESTS.store(0, std::sync::atomic::Ordering::Relaxed);
             REFUSED.store(0, std::sync::atomic::Ordering::Relaxed);
             NAMED_OTHERWISE.store(0, std::sync::atomic::Ordering::Relaxed);
             OVERLONG.store(0, std::sync::atomic::Ordering::Relaxed);
@@ -968,6 +1054,7 @@ pub fn worker_main(args: &Args, w: usize, n: usize) -> ! {
             let refused = REFUSED.load(std::sync::atomic::Ordering::Relaxed);
             let named_otherwise = NAMED_OTHERWISE.load(std::sync::atomic::Ordering::Relaxed);
             let overlong = OVERLONG.load(std::sync::atomic::Ordering::Relaxed);
+            let cli_requests = CLI_REQUESTS.load(std::sync::atomic::Ordering::Relaxed);
             let (bad, steps) = match r {
                 Ok(x) => x,
                 Err(_) => {
@@ -991,7 +1078,7 @@ pub fn worker_main(args: &Args, w: usize, n: usize) -> ! {
             println!(
                 "{}",
                 json!({"t":"case","ii":ii,"image":img.name,"h":h,"ops":ops_json(&ops),"steps":steps,"bad":bad,
-                       "minimised": min_ops, "write_refused_by_file_size_limit": refused, "named_otherwise": named_otherwise, "overlong_requests": overlong,
+                       "minimised": min_ops, "write_refused_by_file_size_limit": refused, "named_otherwise": named_otherwise, "overlong_requests": overlong, "requests_through_the_command_line_tool": cli_requests,
                        "file_size_limited": ops.iter().any(|o| matches!(o, Op::FileSizeLimit { .. })),
                        "max_loc": ops.iter().map(|o| match o { Op::Set{loc,..} | Op::SetUnknown{loc,..} => loc.len(), _ => 0}).max().unwrap_or(0)})
             );
@@ -1054,6 +1141,9 @@ pub fn parent_main(args: &Args) -> ! {
         }
         if r["overlong_requests"].as_u64().unwrap_or(0) > 0 {
             ev.fired("request-the-library-must-refuse (location above 213 bytes)", r["overlong_requests"].as_u64().unwrap());
+        }
+        if r["requests_through_the_command_line_tool"].as_u64().unwrap_or(0) > 0 {
+            ev.fired("route:request-made-through-the-jbk-command-line-tool (separate process)", r["requests_through_the_command_line_tool"].as_u64().unwrap());
         }
         if refused > 0 {
             ev.fired("write-refused-by-file-size-limit (EFBIG)", refused);
